@@ -181,7 +181,7 @@ func (t *TicketID) Decode(d *Decoder) error {
 func (t *TicketAttempt) Decode(d *Decoder) error {
 	cLog(Cyan, "Decoding TicketAttempt")
 
-	val, err := d.DecodeLength()
+	val, err := d.DecodeInteger()
 	if err != nil {
 		return err
 	}
@@ -404,7 +404,7 @@ func (t *TicketsExtrinsic) Decode(d *Decoder) error {
 
 	var err error
 
-	length, err := d.DecodeLength()
+	length, err := d.DecodeLengthOf(minTicketEnvelopeSize)
 	if err != nil {
 		return err
 	}
@@ -908,7 +908,7 @@ func (w *WorkReport) Decode(d *Decoder) error {
 
 	// Work report core index is compact
 	// https://github.com/davxy/jam-test-vectors/commit/fed98559dabaa7058d7f9d83cb8c9353bd78d544
-	coreIndex, err := d.DecodeLength()
+	coreIndex, err := d.DecodeInteger()
 	if err != nil {
 		return err
 	}
@@ -934,7 +934,7 @@ func (w *WorkReport) Decode(d *Decoder) error {
 		return err
 	}
 
-	length, err := d.DecodeLength()
+	length, err := d.DecodeLengthOf(minWorkResultSize)
 	if err != nil {
 		return err
 	}
@@ -973,7 +973,7 @@ func (r *ReportGuarantee) Decode(d *Decoder) error {
 	}
 
 	// Signatures
-	length, err := d.DecodeLength()
+	length, err := d.DecodeLengthOf(minValidatorSignatureSize)
 	if err != nil {
 		return err
 	}
@@ -1001,7 +1001,7 @@ func (g *GuaranteesExtrinsic) Decode(d *Decoder) error {
 
 	var err error
 
-	length, err := d.DecodeLength()
+	length, err := d.DecodeLengthOf(minReportGuaranteeSize)
 	if err != nil {
 		return err
 	}
@@ -1070,7 +1070,7 @@ func (bf *Bitfield) Decode(d *Decoder) error {
 func (a *AssurancesExtrinsic) Decode(d *Decoder) error {
 	cLog(Cyan, "Decoding AssurancesExtrinsic")
 
-	length, err := d.DecodeLength()
+	length, err := d.DecodeLengthOf(minAvailAssuranceSize)
 	if err != nil {
 		return err
 	}
@@ -1290,7 +1290,7 @@ func (d *DisputesExtrinsic) Decode(decoder *Decoder) error {
 		d.Verdicts = verdicts
 	}
 
-	length, err = decoder.DecodeLength()
+	length, err = decoder.DecodeLengthOf(minCulpritSize)
 	if err != nil {
 		return err
 	}
@@ -1307,7 +1307,7 @@ func (d *DisputesExtrinsic) Decode(decoder *Decoder) error {
 		d.Culprits = culprits
 	}
 
-	length, err = decoder.DecodeLength()
+	length, err = decoder.DecodeLengthOf(minFaultSize)
 	if err != nil {
 		return err
 	}
@@ -1542,7 +1542,7 @@ func (w *WorkPackage) Decode(d *Decoder) error {
 	}
 
 	// Items (w)
-	length, err := d.DecodeLength()
+	length, err := d.DecodeLengthOf(minWorkItemSize)
 	if err != nil {
 		return err
 	}
@@ -2198,7 +2198,7 @@ func (b *BlockInfo) Decode(d *Decoder) error {
 func (b *BlocksHistory) Decode(d *Decoder) error {
 	cLog(Cyan, "Decoding BlocksHistory")
 
-	length, err := d.DecodeLength()
+	length, err := d.DecodeLengthOf(minBlockInfoSize)
 	if err != nil {
 		return err
 	}
@@ -2551,7 +2551,7 @@ func (r *ReadyQueueItem) Decode(d *Decoder) error {
 
 	var err error
 
-	length, err := d.DecodeLength()
+	length, err := d.DecodeLengthOf(minReadyRecordSize)
 	if err != nil {
 		return err
 	}
@@ -3237,7 +3237,7 @@ func (m *ExportSegmentMatrix) Decode(d *Decoder) error {
 	}
 	result := make(ExportSegmentMatrix, outerLen)
 	for i := range result {
-		innerLen, err := d.DecodeLength()
+		innerLen, err := d.DecodeLengthOf(uint64(len(ExportSegment{})))
 		if err != nil {
 			return err
 		}
